@@ -21,7 +21,7 @@ import (
 
 func init() {
 	Register(&World{Name: "pipeline", Props: []string{"C07", "C08", "C09"}, Concurrent: true, Timed: false, MaxSteps: 60000, Run: pipelineWorld})
-	ExpectedProbes["pipeline/C07"] = []string{"depth-4", "iterator-agrees", "stream-agrees", "reducer-collect", "reducer-last", "reducer-one", "reducer-reduce", "iterator-equal", "xslices-agrees", "laziness-checked", "end-sticky-checked", "op-filter", "op-map", "op-first", "op-while", "op-compact", "op-compactfunc", "op-peek", "op-chunk", "op-chunkflat", "op-runssep", "op-runsflat", "op-runshead", "op-flatmap", "op-join", "last-n-zero", "chan-leaf-fed-live", "flatten-aliased-slices"}
+	ExpectedProbes["pipeline/C07"] = []string{"depth-4", "iterator-agrees", "stream-agrees", "reducer-collect", "reducer-last", "reducer-one", "reducer-reduce", "iterator-equal", "xslices-agrees", "laziness-checked", "end-sticky-checked", "op-filter", "op-map", "op-first", "op-while", "op-compact", "op-compactfunc", "op-peek", "op-chunk", "op-chunkflat", "op-runssep", "op-runsflat", "op-runshead", "op-flatmap", "op-join", "last-n-zero", "last-n-huge", "ilast-n-huge", "chan-leaf-fed-live", "flatten-aliased-slices"}
 	ExpectedProbes["pipeline/C08"] = []string{"fault-src-error", "fault-cb-error", "fault-ctx-precancelled", "fault-transient", "fault-ctx-deadline-midcall", "error-with-chunk-pending", "error-inside-flatten-inner", "error-in-mapstream", "error-in-batch", "error-in-merge", "single-fault-exhaustive", "multi-fault", "reducer-error", "fault-not-reached", "chan-leaf-fed-live", "chan-feeder-slow-under-deadline"}
 	ExpectedProbes["pipeline/C09"] = []string{"own-abandoned-early", "own-read-to-end", "own-after-error", "own-reducer", "own-flatten-inner", "own-join-later-args", "own-merge-inputs", "own-mapstream", "own-batch", "own-samplestream"}
 }
@@ -105,12 +105,17 @@ func pipelineWorld(r *R) {
 		for _, mode := range []string{"collect", "last", "reduce", "one"} {
 			sc := &pScript{mode: mode, abandonAt: -1}
 			if mode == "last" {
-				sc.lastN = []int{0, 1, len(X) - 1, len(X), len(X) + 1, 2}[r.Choose(6, "last-n")]
+				// "fewer than n items: all of them" holds for every n, also one far beyond anything that
+				// could be allocated up front
+				sc.lastN = []int{0, 1, len(X) - 1, len(X), len(X) + 1, 2, math.MaxInt, 1 << 48}[r.Choose(8, "last-n")]
 				if sc.lastN < 0 {
 					sc.lastN = 0
 				}
 				if sc.lastN == 0 {
 					r.Probe("last-n-zero")
+				}
+				if sc.lastN > 1<<30 {
+					r.Probe("last-n-huge")
 				}
 			}
 			rr := pipelineExec(r, prog, newFaultPlan(), sc, false)
@@ -491,6 +496,9 @@ func pipelineExec(r *R, prog *pnode, plan *faultPlan, sc *pScript, checkLazy boo
 func clampN(n int) string {
 	if n == 0 {
 		return "0"
+	}
+	if n > 1<<30 {
+		return "huge"
 	}
 	return "positive"
 }
@@ -1022,9 +1030,12 @@ func pipelineIteratorChecks(r *R, prog *pnode, X []int, pulls []map[int]int, sla
 		r.Violate("C07", "reducer/iterator.Collect", "Collect = %v, reference %v (program %v)", c, X, prog)
 		return
 	}
-	n := []int{0, 1, len(X) - 1, len(X), len(X) + 1}[r.Choose(5, "ilast-n")]
+	n := []int{0, 1, len(X) - 1, len(X), len(X) + 1, math.MaxInt, 1 << 48}[r.Choose(7, "ilast-n")]
 	if n < 0 {
 		n = 0
+	}
+	if n > 1<<30 {
+		r.Probe("ilast-n-huge")
 	}
 	want := X
 	if n < len(X) {
